@@ -1,5 +1,6 @@
 import EupsModel.Drv.Util
 import EupsModel.Model.Expand
+import EupsModel.Model.ExpandTable
 namespace EupsModel.Drv.C17
 open Lean EupsModel EupsModel.Drv EupsModel.Expand
 
@@ -44,6 +45,49 @@ def itemJson : Item → Json
   | .pin ind opt n v => Json.mkObj [("t", "pin"), ("ind", Json.num ind), ("optional", opt), ("name", ofStr n), ("version", ofStr v)]
   | .fin t => Json.mkObj [("t", "fin"), ("text", ofStr t)]
 
+def extraJson : TableParse.Extra → Json
+  | .none => Json.mkObj []
+  | .optional b => Json.mkObj [("optional", b)]
+  | .append b => Json.mkObj [("append", b)]
+
+def actionJson (a : TableParse.Action) : Json :=
+  Json.mkObj [("cmd", ofStr a.cmd), ("args", ofStrs a.args), ("extra", extraJson a.extra)]
+
+/-- the expanded table read by the model of the table reader in exact mode (`C17_exact_actions_text`): the hypotheses
+`itemOK` / `inertItem` evaluated on the items, the action list composed from the items (`exactActs`) and the one the
+reader's model computes from the text itself -/
+def exactJson (flavor : Str) (A : Answers) (o : Opts) (lines : List Str) (items : List Item) : Json :=
+  let env : Cond.Env := ⟨flavor, [ExpandTable.sExactW]⟩
+  let directR := TableParse.tableActions TableParse.repaired none env (ExpandTable.expandedText items true)
+  let direct := match directR with
+    | .ok acts => Json.arr (acts.map actionJson).toArray
+    | .err _ => Json.str "error"
+    | .fuel => Json.str "fuel"
+  -- `toPin` (= Action.processArgs on a pin action) on every setup command of that list: [optional, product, version] or null
+  let pins := match directR with
+    | .ok acts => Json.arr ((acts.filter fun a => a.cmd == TableParse.Cmd.setupRequired.name).map fun a =>
+        match ExpandTable.toPin a with
+        | some (opt, n, v) => Json.arr #[Json.bool opt, ofStr n, ofStr v]
+        | none => Json.null).toArray
+    | _ => Json.null
+  -- inexact mode (setup type `build`): C17_inexact_actions_text
+  let envB : Cond.Env := ⟨flavor, [Str.ofString "build"]⟩
+  let directB := match TableParse.tableActions TableParse.repaired none envB (ExpandTable.expandedText items true) with
+    | .ok acts => Json.arr (acts.map actionJson).toArray
+    | .err _ => Json.str "error"
+    | .fuel => Json.str "fuel"
+  let composed2 := match ExpandTable.expandParts A o lines with
+    | .ok p => Json.arr ((C11Spec.denoteTable env (C11Spec.tableAbs (ExpandTable.tableOf none p))).map actionJson).toArray
+    | .error _ => Json.null
+  Json.mkObj [("itemOK", items.all (ExpandTable.itemOK none)), ("inert", items.all (ExpandTable.inertItem none)),
+              ("flavorOK", C11Spec.flavorOK flavor),
+              ("acts", Json.arr ((items.flatMap (ExpandTable.exactActs none)).map actionJson).toArray),
+              -- C17_exact_actions_blocks: non-setup lines grouped into lines and `if` chains (checked grouping)
+              ("blocksOK", ExpandTable.expandOK2 none A o lines), ("inert2", ExpandTable.expandInert2 none env A o lines),
+              ("composed2", composed2),
+              ("pins", pins), ("direct", direct), ("direct_build", directB),
+              ("acts_build", Json.arr ((items.flatMap (ExpandTable.inexactActs none)).map actionJson).toArray)]
+
 /-- `{"m":"c17","op":"expand","lines":[..],"pins":[[n,v]..],"toplevel":s|null,"force":b,"expandVersions":b,
 "addExactBlock":b,"recurse":b,"spv":[[n,v]..],"sv":[[n,v]..],"deps":[[n,v,null|[[n,v,opt]..]]..]}` →
 `{"out":"ok","lines":[..],"items":[..]}` or `{"out":"error","err":kind}`.
@@ -59,19 +103,29 @@ def handle : Handler := fun j => do
     pure (Json.mkObj [("kinds", Json.arr (lines.map fun l =>
       if isBlankOrComment l then Json.str "blank"
       else match searchRex (stripComment l) with
-        | some m => Json.mkObj [("optional", m.optional), ("args", ofStr m.args), ("len", Json.num m.len)]
+        | some m => Json.mkObj [("optional", m.optional), ("args", ofStr m.args), ("len", Json.num m.len), ("unsetup", m.unsetup)]
         | none => Json.str "other").toArray)])
   | "re" =>
     -- the hand-translated regular expressions and string helpers, one answer per line, for the differential test against `re`
     pure (Json.mkObj [("res", Json.arr (lines.map fun l =>
       Json.mkObj [("blank", isBlankOrComment l), ("nocomment", ofStr (stripComment l)),
         ("rex", match searchRex l with
-          | some m => Json.mkObj [("optional", m.optional), ("args", ofStr m.args), ("len", Json.num m.len)]
+          | some m => Json.mkObj [("optional", m.optional), ("args", ofStr m.args), ("len", Json.num m.len), ("unsetup", m.unsetup)]
           | none => Json.null),
         ("preExact", preExactRe l), ("openBrace", endsWithOpenBrace l), ("closeBrace", isCloseBrace l),
         ("split", ofStrs (splitWs l)), ("strip", ofStr (strip l)), ("relop", hasRelop l),
         ("badrelop", badRelop l), ("first", ofStr (firstField l)), ("bracket", ofStrs (splitBracket l)),
         ("external", contains sExternal l)]).toArray)])
+  | "setupversion" =>
+    -- `{"recognised":[tag..], "lines":[], "cases":[{"recorded":s, "declared":b, "tagged":s|null}..]}` → the version reported
+    let recognised ← jstrs j "recognised"
+    let cases ← jarr j "cases"
+    let vs ← cases.mapM fun c => do
+      let recorded ← jstr c "recorded"
+      let declared ← jbool c "declared"
+      let tagged ← jstrOpt c "tagged"
+      pure (ofStr (setupVersion recognised (fun _ => declared) (fun _ => tagged) recorded))
+    pure (Json.mkObj [("versions", Json.arr vs.toArray)])
   | "expand" =>
     let pins ← pairs j "pins"
     let spv ← pairs j "spv"
@@ -90,7 +144,11 @@ def handle : Handler := fun j => do
                         ("items", Json.arr (items.map itemJson).toArray),
                         -- the hypotheses of C17_exact_reproduces_partial evaluated on these answers
                         ("hyps", Json.mkObj [("depsSound", D.depsSound), ("pinsAgree", D.pinsAgree),
-                                             ("covered", D.covered o lines), ("noExactLine", noExactLine A o lines)])])
+                                             ("covered", D.covered o lines), ("noExactLine", noExactLine A o lines)]),
+                        -- with "flavor": the expanded table read in exact mode (C17_exact_actions_text)
+                        ("exact", match jstr j "flavor" with
+                          | .ok fl => exactJson fl A o lines items
+                          | .error _ => Json.null)])
   | _ => throw s!"unknown op {op}"
 
 end EupsModel.Drv.C17
